@@ -227,6 +227,35 @@ def policy_cases(chk, MX):
             chk.violation("policy:warn:%s" % solver, dict(kind="policy", **d))
         if nc == "ignore" and unconverged and not (out[0] == "Loads" and out[1] == 0):
             chk.violation("policy:ignore:%s" % solver, dict(kind="policy", **d))
+    # call histories of set_err_state: the last call decides, what it leaves out is "raise" again
+    fixed_histories = [[{"not_converged": "ignore"}, {}], [{"not_converged": "warn"}, {"database_bounds": "warn"}],
+                       [{"not_converged": "ignore"}, {"not_converged": "raise"}], [{"database_bounds": "ignore"}, {"not_converged": "warn"}], [{}]]
+    for hi in range(len(fixed_histories) + chk.q(4, 30)):
+        calls = [dict(c) for c in fixed_histories[hi]] if hi < len(fixed_histories) else []
+        for _k in range(rng.randint(1, 3) if hi >= len(fixed_histories) else 0):
+            kw = {}
+            if rng.random() < 0.6:
+                kw["not_converged"] = rng.choice(["raise", "warn", "ignore"])
+            if rng.random() < 0.5:
+                kw["database_bounds"] = rng.choice(["raise", "warn", "ignore"])
+            calls.append(kw)
+        sc = gen.build_scene(MX, {"solver": {"type": "nonlinear", "max_iterations": 1}, "scene": {"atmosphere": {"rho": 0.0023769}}}, [("a", ac, st, {})])
+        for kw in calls:
+            sc.set_err_state(**kw)
+        out = outcome_class(lambda: sc.solve_forces())
+        coq_calls = "[%s]" % "; ".join("(%s, %s)" % ("Some " + instr[kw["not_converged"]] if "not_converged" in kw else "None",
+                                                     "Some " + instr[kw["database_bounds"]] if "database_bounds" in kw else "None") for kw in calls)
+        facts = "{| n_aircraft := 1; fsolve_ok := true; newton_ok := false; integrate_db_error := false |}"
+        want = {"Loads": "match o with Loads w _ => Nat.eqb w %d | _ => false end" % (out[1] if out[0] == "Loads" else 0),
+                "RaisedSolverNotConvergedError": "match o with RaisedNotConverged => true | _ => false end",
+                "RaisedRuntimeError": "match o with RaisedRuntimeError => true | _ => false end"}.get(out[0], "false")
+        cases.append("let st := err_state_after %s in let o := solve_forces_outcome SNonlinear GLinear (fst st) (snd st) %s in %s" % (coq_calls, facts, want))
+        d = dict(what="policy-history", calls=calls, outcome=out)
+        descr.append(d)
+        chk.case(dict(d), nontrivial=True)
+        last = calls[-1].get("not_converged", "raise")
+        if last == "raise" and out[0] == "Loads":
+            chk.violation("policy:silent-unconverged:history", dict(kind="policy", **d))
     # empty scene
     sc = MX.Scene({})
     out = outcome_class(lambda: sc.solve_forces())
